@@ -2,35 +2,51 @@
 # Must-fail corpus: every patch under /verif/selftest/<prop>/ (and /verif/seeded/<id>/patch.diff)
 # breaks property <prop> while compiling; the check for <prop> must exit 1 on the patched tree.
 # usage: selftest/run.sh [prop ...]    (default: all)
+# VERIF_CORPUS_JOBS patches are replayed at a time (default 3), each in its own scratch worktree.
 set -u
 export GOFLAGS=-mod=mod GOPROXY=off
 cd /verif
+if [ "${1:-}" = "--one" ]; then
+  # internal: replay one patch; prints one line
+  prop="$2"; patch="$3"
+  wt=$(mktemp -d /tmp/gocv-selftest.XXXXXX)
+  okwt=0
+  for try in 1 2 3 4 5 6; do
+    if git -C /repo worktree add -q --detach "$wt" HEAD >/dev/null 2>&1; then okwt=1; break; fi
+    sleep 1
+  done
+  [ $okwt -eq 1 ] || { echo "SELFTEST-ERROR $patch worktree failed"; rm -rf "$wt"; exit 0; }
+  # carry uncommitted contract files too
+  (cd /repo && git ls-files -o --exclude-standard -- '*_verif.go' | while read f; do mkdir -p "$wt/$(dirname $f)"; cp "$f" "$wt/$f"; done)
+  # ... and every other uncommitted change of the working tree (the corpus is measured against
+  # the current tree, not against HEAD)
+  (cd /repo && git diff HEAD | git -C "$wt" apply 2>/dev/null)
+  if ! git -C "$wt" apply "/verif/$patch" 2>"$wt/.apply.err"; then
+    echo "SELFTEST-ERROR $patch does not apply: $(head -2 "$wt/.apply.err" | tr '\n' ' ')"
+  else
+    out=$(GOCV_NORETRY=1 VERIF_OUT="$wt/.verifout" /verif/bin/gocv check --repo "$wt" --property "$prop" --tier quick 2>&1); code=$?
+    if [ $code -eq 1 ] && echo "$out" | grep -q "^VIOLATION property=$prop"; then
+      echo "ok   $patch -> $(echo "$out" | grep -c '^VIOLATION') violation(s): $(echo "$out" | grep '^VIOLATION' | head -1 | sed 's/.*replays\/[^/]*\///' | cut -c1-90)"
+    else
+      echo "MISS $patch (exit $code) $(echo "$out" | tail -2 | tr '\n' ' ' | cut -c1-200)"
+    fi
+  fi
+  git -C /repo worktree remove --force "$wt" >/dev/null 2>&1; rm -rf "$wt"
+  exit 0
+fi
 props=("$@")
 if [ ${#props[@]} -eq 0 ]; then props=($(ls selftest | grep '^C[0-9]*$')); fi
-fail=0; n=0
+list=$(mktemp /tmp/gocv-selftest-list.XXXXXX)
 for prop in "${props[@]}"; do
   for patch in selftest/$prop/*.patch; do
-    [ -f "$patch" ] || continue
-    n=$((n+1))
-    wt=$(mktemp -d /tmp/gocv-selftest.XXXXXX)
-    git -C /repo worktree add -q --detach "$wt" HEAD >/dev/null 2>&1 || { echo "worktree failed"; exit 2; }
-    # carry uncommitted contract files too
-    (cd /repo && git ls-files -o --exclude-standard -- '*_verif.go' | while read f; do mkdir -p "$wt/$(dirname $f)"; cp "$f" "$wt/$f"; done)
-    # ... and every other uncommitted change of the working tree (the corpus is measured against
-    # the current tree, not against HEAD)
-    (cd /repo && git diff HEAD | git -C "$wt" apply 2>/dev/null)
-    if ! git -C "$wt" apply "$PWD/$patch" 2>/tmp/gocv-apply.err; then
-      echo "SELFTEST-ERROR $patch does not apply: $(cat /tmp/gocv-apply.err | head -2)"; fail=1
-    else
-      out=$(GOCV_NORETRY=1 VERIF_OUT="$wt/.verifout" /verif/bin/gocv check --repo "$wt" --property "$prop" --tier quick 2>&1); code=$?
-      if [ $code -eq 1 ] && echo "$out" | grep -q "^VIOLATION property=$prop"; then
-        echo "ok   $patch -> $(echo "$out" | grep -c '^VIOLATION') violation(s): $(echo "$out" | grep '^VIOLATION' | head -1 | sed 's/.*replays\/[^/]*\///' | cut -c1-90)"
-      else
-        echo "MISS $patch (exit $code)"; echo "$out" | tail -3; fail=1
-      fi
-    fi
-    git -C /repo worktree remove --force "$wt" >/dev/null 2>&1; rm -rf "$wt"
+    [ -f "$patch" ] && echo "$prop $patch" >> "$list"
   done
 done
+n=$(wc -l < "$list")
+res=$(xargs -a "$list" -P "${VERIF_CORPUS_JOBS:-3}" -L 1 /verif/selftest/run.sh --one)
+rm -f "$list"
+echo "$res"
+fail=0
+echo "$res" | grep -q -E '^(MISS|SELFTEST-ERROR) ' && fail=1
 echo "selftest: $n patches, fail=$fail"
 exit $fail
